@@ -55,4 +55,9 @@ theorem u32_from_tag_type_eq (p : Profile) (t : TagType) :
      rw [eval_arm_c0 p _ 101 _ _ _ _ (set_same _ _ _), if_pos rfl]
      simp [eval, typed, TagType.toU32])
 
+/-- `TagType::val` is nothing but the `u32::from` conversion (`TagType.val = TagType.toU32`) -/
+theorem tag_type_val_eq (p : Profile) (x : V) :
+    evalO p [x] Gen.Fns.tag_type_val = some (.ok x) := by
+  simp [evalO, Gen.Fns.tag_type_val, eval]
+
 end Mb2.Fns
